@@ -239,3 +239,54 @@ Theorem C18_drop_removes_own_files :
     is_child (datastore_key dir r p) f = true -> ~ In f (destroy_cfg sw cfg (datastore_key dir r p) fs).
 Proof. exact drop_removes_own_files_cfg. Qed.
 Print Assumptions C18_drop_removes_own_files.
+
+(** ** A Directory option other than the instance's directory ([cf_customdir]) *)
+
+(** The database's cache is loaded from, and destroyed in, the same directory whatever the
+    option: on disk, Drop removes the database's own cache in every configuration. *)
+Theorem C18_drop_removes_own_any_option :
+  forall sw cfg inst opt r p,
+    cf_memory cfg = false -> drop_removes_own sw cfg inst opt r p = true.
+Proof. exact drop_removes_own_any_option. Qed.
+Print Assumptions C18_drop_removes_own_any_option.
+
+(** Regression witness: a Destroy that is given another directory than the one the cache was
+    loaded from (neither inside the other: the option's directory and the instance's, say)
+    removes nothing of the database - after such a Drop its entries are still loaded. *)
+Theorem C18_refuted_destroy_elsewhere :
+  forall sw cfg dir dir' r p,
+    no_dotdot p = true ->
+    is_prefix dir dir' = false -> is_prefix dir' dir = false ->
+    drop_removes sw cfg dir' r p (datastore_key dir r p) = false.
+Proof. exact destroy_elsewhere_keeps_data. Qed.
+Print Assumptions C18_refuted_destroy_elsewhere.
+
+(** Close leaves the database reopenable on the same instance, any number of times, in every
+    configuration: with a Load that hands out the cache it registers, every incarnation of the
+    database gets a usable cache. *)
+Theorem C18_reopen_cycle :
+  forall sw cfg n via_create t,
+    sw_load_registered sw = true -> t <> TStale ->
+    forallb (fun u => u) (cycle sw cfg via_create n t) = true.
+Proof. exact cycle_usable_registered. Qed.
+Print Assumptions C18_reopen_cycle.
+
+(** ... and without a Directory option other than the instance's directory this holds on the tree
+    before that repair too (the lookup has loaded the very cache the store is given). *)
+Theorem C18_reopen_cycle_without_option :
+  forall sw cfg n via_create t,
+    cf_customdir cfg = false -> t <> TStale ->
+    forallb (fun u => u) (cycle sw cfg via_create n t) = true.
+Proof. exact cycle_usable_default. Qed.
+Print Assumptions C18_reopen_cycle_without_option.
+
+(** Regression witness (before the repair of Load): with such an option the store opened from
+    its address is given the bare datastore; its Close leaves a closed cache registered, and the
+    next incarnation of the database answers "leveldb: closed" to Load and to every write. *)
+Theorem C18_refuted_customdir_reopen :
+  forall sw cfg,
+    sw_load_registered sw = false -> cf_customdir cfg = true ->
+    cycle sw cfg false 2 TAbsent = [true; false; true] /\
+    cycle sw cfg true 2 TAbsent = [true; true; false].
+Proof. exact cycle_refuted_customdir. Qed.
+Print Assumptions C18_refuted_customdir_reopen.
